@@ -2286,6 +2286,16 @@ impl World {
             a.lamports = if dynamic { min_balance(148) + *base.array_rent.get(&st).unwrap_or(&0) as u64 * TICK_RENT } else { min_balance(a.data.len()) };
             fx.bank.accts.insert(key, a);
         }
+        // auth modes 3 / 4 / 5 (C15): the lock config offered is NOT at the position's lock-config address; the mint
+        // offered is another (look-alike) mint, not the position's; the position belongs to ANOTHER pool
+        let omint = k(0x67, id as u8);
+        let pm = fx.bank.get(&pmint);
+        fx.bank.set(omint, pm.owner, pm.lamports, pm.data.clone());
+        if auth_mode == 5 {
+            let mut a = fx.bank.get(&position);
+            a.data[8..40].copy_from_slice(k(0x77, 1).as_ref());
+            fx.bank.accts.insert(position, a);
+        }
         let bank0 = fx.bank.clone();
         // ---- step 1: lock
         let signer_key = if auth_mode == 1 { stranger } else { fx.trader };
@@ -2293,9 +2303,9 @@ impl World {
             funder: if auth_mode == 2 { stranger } else { fx.trader },
             position_authority: signer_key,
             position,
-            position_mint: pmint,
+            position_mint: if auth_mode == 4 { omint } else { pmint },
             position_token_account: ptoken,
-            lock_config,
+            lock_config: if auth_mode == 3 { k(0x99, 7) } else { lock_config },
             whirlpool: fx.pool,
             token_2022_program: t22,
             system_program: crate::svm::system_id(),
@@ -2323,6 +2333,10 @@ impl World {
                 return XHopOut { line: format!("err {}", name), viols, tags };
             }
             Ok(()) => {
+                if auth_mode >= 3 {
+                    viols.push(format!("C15 lock_position succeeded although {}", match auth_mode { 3 => "the lock config is not at the position's lock-config address", 4 => "the mint offered is not the position's mint", _ => "the position belongs to another pool than the one named" }));
+                    return XHopOut { line: "ACCEPTED".to_string(), viols, tags };
+                }
                 if auth_mode != 0 {
                     viols.push(format!("C04 lock_position succeeded although the position owner did not sign (mode {})", auth_mode));
                 }
